@@ -188,6 +188,16 @@ def render_task(p, cfg, rec):
         symsim.instrument(s, rec)
         sim = s.getSimulator()
     vars_ = {}
+    pre = cfg.get('pre')
+    if pre is not None:
+        # an earlier recording of `pre` cycles that is discarded with clear()
+        for x in set(names):
+            sym, v = core.fresh('%s@pre' % x, ws[x].getWidth())
+            vars_['%s@pre' % x] = v
+            ws[x].put(sym)
+        with quiet():
+            sim.clk(pre)
+        wvf.clear()
     for t in range(n):
         for x in set(names):
             key = '%s@%d' % (x, t)
@@ -240,6 +250,11 @@ def render_task(p, cfg, rec):
                 w2 = {'a1': s2.wire('a1', 1), 'b1': s2.wire('b1', 1), 'c3': s2.wire('c3', 3), 'd4': s2.wire('d4', 4)}
                 wv2 = Waveform(s2, 'wvf', [w2[x] for x in names])
                 sm = s2.getSimulator()
+                if pre is not None:
+                    for x in set(names):
+                        w2[x].put(values.get('%s@pre' % x, 0))
+                    sm.clk(pre)
+                    wv2.clear()
                 for t in range(n):
                     for x in set(names):
                         w2[x].put(values.get('%s@%d' % (x, t), 0))
@@ -274,6 +289,11 @@ def tasks_for(tier):
         rl += [(['a1'], 7), (['c3'], 4), (['d4'], 3), (['a1', 'b1', 'c3'], 2), (['c3', 'c3'], 3), (['d4'], 0), (['a1', 'b1'], 5)]
     for names, n in rl:
         t.append(('render %s n=%d' % ('+'.join(names), n), render_task, {'wires': names, 'n': n}))
+    cl = [(['a1', 'c3'], 2, 3), (['a1'], 2, 0), (['c3'], 0, 2)]
+    if not quick:
+        cl += [(['a1', 'b1'], 3, 3), (['d4'], 1, 1), (['a1', 'c3'], 5, 1), (['c3', 'c3'], 2, 2)]
+    for names, pre, n in cl:
+        t.append(('render %s after %d cycles and clear(), n=%d' % ('+'.join(names), pre, n), render_task, {'wires': names, 'n': n, 'pre': pre}))
     return t
 
 
@@ -285,7 +305,7 @@ def main(argv=None):
         assumptions=['expected samples come from a twin design without recorder, stepped one cycle at a time and read after propagateAll() before each edge',
                      'display format of multi-bit wires is upper-case hexadecimal ({:X}); 1-bit wires are drawn as 0/1 characters'],
         bounds={'capture': 'up to 6 cycles, 6 watch lists (wire, port, duplicates, aliases), 7 call schedules incl. 0 cycles and clear()',
-                'rendering': '1-bit wires up to 5 (7) cycles, 3/4-bit wires up to 3 (4) cycles; every feasible path'},
+                'rendering': '1-bit wires up to 5 (7) cycles, 3/4-bit wires up to 3 (4) cycles; every feasible path; also after an earlier recording of 0..5 cycles discarded with clear()'},
         trusted_base=['z3', 'symx (format/compare forks are path-complete)', 'decoder in checks/c15.py'], task_limit=900)
 
 
